@@ -398,6 +398,8 @@ class GateMonitor(WireTracker):
             return True
         if variant == "vsa":
             return bool(self.sc.cfg.get("apps"))
+        if variant == "vsa_acct":
+            return any(a.get("acct") for a in self.sc.cfg.get("apps", []))
         return bool(variant) and variant.startswith("p") and bool(self.sc.cfg.get("apps"))
 
     def judge_cea(self, s, st, variant, f):
@@ -405,7 +407,11 @@ class GateMonitor(WireTracker):
         vs = []
         rcode = f.result_code
         if (variant.startswith("p") or variant == "vsa") and not self.sc.cfg.get("apps"):
-            variant = "nocommon"        # a node without applications shares nothing with a non-relay peer
+            variant = "nocommon"
+        if variant == "vsa_acct" and not self.acceptable(variant):
+            variant = "nocommon"
+        if variant == "vsa_cross":
+            variant = "crosskind"        # a node without applications shares nothing with a non-relay peer
         if variant == "unknown":
             if rcode != 3010:
                 vs.append((f"ce-outcome:unknown-peer:answered-{rcode}-instead-of-3010", f"{f!r}"))
